@@ -265,22 +265,24 @@ class UFProb(Problem):
     # non-autonomous: F(u, t), so that evaluation times matter too
     F = z3.Function('F', z3.RealSort(), z3.RealSort(), z3.RealSort())
 
-    def __init__(self):
+    def __init__(self, name='F'):
         super().__init__(init=(1, None, ODT))
         self.axioms = []
         self.nw = 0
+        # a coarser level may carry a DIFFERENT uninterpreted right-hand side (an arbitrary coarse problem, as with spatial coarsening)
+        self.Fn = UFProb.F if name == 'F' else z3.Function(name, z3.RealSort(), z3.RealSort(), z3.RealSort())
 
     def eval_f(self, u, t):
         f = self.dtype_f(self.init)
-        f[0] = SymReal(UFProb.F(R(u[0]), R(t)))
+        f[0] = SymReal(self.Fn(R(u[0]), R(t)))
         return f
 
     def solve_system(self, rhs, factor, u0, t):
         self.nw += 1
         w = z3.Real(f'w!{id(self) % 9973}!{self.nw}')
-        self.axioms.append(w - R(factor) * UFProb.F(w, R(t)) == R(rhs[0]))
+        self.axioms.append(w - R(factor) * self.Fn(w, R(t)) == R(rhs[0]))
         # uniqueness of the solution of the implicit equation (contract: the solve is a function of rhs, factor)
-        self.axioms.append(z3.Implies(R(u0[0]) - R(factor) * UFProb.F(R(u0[0]), R(t)) == R(rhs[0]), w == R(u0[0])))
+        self.axioms.append(z3.Implies(R(u0[0]) - R(factor) * self.Fn(R(u0[0]), R(t)) == R(rhs[0]), w == R(u0[0])))
         me = self.dtype_u(self.init)
         me[0] = SymReal(w)
         return me
